@@ -30,10 +30,16 @@ def run(patch, props=None):
             return None, f"patch does not apply: {o[:200]}"
         man = json.load(open("/verif/MANIFEST.json"))
         det = {}
+        sys.path.insert(0, os.path.dirname(os.path.abspath(__file__)))
+        from _affected import affected
+
+        can_see = affected(patch)
         for c in man["checks"]:
             pid = c["property_id"]
             if props and pid not in props:
                 continue
+            if can_see is not None and pid not in can_see:
+                continue  # consults none of the touched files: same verdict as on the unchanged tree
             rcc, oc = sh(f"{PY} -m xoverif.check {pid} --no-evidence --root {d}", cwd="/verif")
             if rcc != 0:
                 fails = [l for l in oc.splitlines() if l.startswith("FAIL")]
